@@ -36,7 +36,7 @@ import time
 from harness import common, pool
 
 PID = "C15"
-TRANSLATORS = ["T-invfilters", "T-storedigest", "T-stateid", "T-pathslice", "T-probes"]
+TRANSLATORS = ["T-invfilters", "T-storedigest", "T-stateid", "T-pathslice", "T-probes", "T-solverlife"]
 
 # Genuine defects of halmos found by this check on the unchanged tree (see the final report).
 KNOWN = common.known_for("C15")  # entries live in /verif/known_findings.json
@@ -48,6 +48,7 @@ ASSUMPTIONS = [
     "the reference interpreter (Spec/Evm.v) is the EVM oracle; vm.roll/fee/chainId/warp in handlers are given their Foundry meaning by the harness (the block field changes for the rest of the sequence)",
     "probes: the solver's answer for a candidate is an input of the probe model (C15_probe_genuine_reported assumes that every submitted query is answered: on the real code the answers of the last depth are often cut off by the executor shutdown, known finding F12); feasibility of a failing path is decided by the harness with z3 on the path conditions",
     "the extracted model and driver are faithful to the Coq definitions (extraction is trusted)",
+    "the invariant's own run (C15_invariant_run_covers_state): the invariant on a state is a decision tree over conditions, the solver is sound and complete on its queries (visible hypotheses); where run_message creates / empties the solver is regenerated (T-solverlife), the quick membership answers of Exec.check, `unknown` answers and the loop bound are outside the model; tied end to end by the solver-ctx L3 cases against the brute force (and by the run_message tie of C20)",
 ]
 PARTIAL = ("the symbolic engine and the timestamp refresh are parameters of the frontier model (tied by feeding the model the outcomes recorded from the real run); the state id is the regenerated snapshot_state over the components recorded for each state (term ids, code identities, storage items, condition ids, slice), the slice the regenerated Path.slice over the recorded symbols of each condition; the two are not composed in one Coq function (term ids vs. symbols); "
            "--early-exit, multiple invariant tests sharing the cached frontier and solver timeouts are not modelled")
@@ -739,6 +740,7 @@ QUICK_CORPUS = {
     "branch-cond-related-hi", "branch-cond-forward-hi",
     "instances-tsel-second-hit", "instances-tsel-first-hit", "instances-tsel-holds",
     "probe-after-refuted-candidate", "probe-sibling-refuted-first", "probe-refuted-only",
+    "solver-ctx-siblings-lo", "solver-ctx-siblings-hi", "solver-ctx-gated-d2-hi",
 }
 
 
@@ -765,6 +767,9 @@ def gen_l3_cases(tier, r):
     # assertions inside targets: refuted candidates before / beside genuine failures of the same function
     for j in range(1 if tier == "quick" else 30):
         cases.append(B.gen_probe_case(r, j, max_depth=2 if tier == "quick" else 3))
+    # the invariant's own run on sibling frontier states that share a symbol (one solver context per state)
+    for j in range(2 if tier == "quick" else 40):
+        cases.append(B.gen_solverctx_case(r, j))
     return cases
 
 
